@@ -1,13 +1,13 @@
 (** Property C03 — every algorithm returns a well-formed consensus over exactly the universe.
     Status: proved for the algorithms whose last step is modelled end to end — Borda (both
-    variants), Copeland, KwikSort (every pivot script), PickAPerm's candidates (unified rankings), the
+    variants), Copeland, KwikSort (every pivot script), PickAPerm end to end ([C03_pickaperm_wf]) and its candidates (unified rankings), the
     Markov-style decoding of dense bucket-id vectors, the defeat-count decoder of the exact algorithm (on every
     feasible point of its program), the ParCons concatenation (given well-formed sub-answers), BioConsert's decoder on the
     (dense) vectors its local search produces.  Every consensus returned by the 15
     configurations is judged in Coq: at least one ranking, exactly one when one is asked, non-empty pairwise
     disjoint buckets whose union is exactly the universe with element types preserved, views consistent. *)
 From Corankco Require Import Prelude Scheme Rank KemenySpec CostTable GroupSort Borda BordaProof Copeland CopelandProof
-     KwikSort KwikSortProof Markov MarkovProof OptTheory Partition PartitionProof ConsistentProof ParConsProof ILP ILPProof BioConsert Judge.JBio BioMoves BioLoop BioAlgo.
+     KwikSort KwikSortProof PickAPerm PickAPermProof PickAPermWf Markov MarkovProof OptTheory Partition PartitionProof ConsistentProof ParConsProof ILP ILPProof BioConsert Judge.JBio BioMoves BioLoop BioAlgo.
 Local Open Scope Z_scope.
 
 Theorem C03_borda_wf : forall ub R,
@@ -27,6 +27,15 @@ Theorem C03_kwiksort_wf : forall w fuel script rem,
                     Permutation (concat c) rem /\ Forall (fun b => b <> []) c.
 Proof. exact kwik_wf. Qed.
 Print Assumptions C03_kwiksort_wf.
+
+(** PickAPerm, end to end: on a dataset of well-formed rankings (the constructor guarantees it, C16) whatever it returns is a
+    non-empty list - of length one when one is asked - of rankings with ties of exactly the universe, no empty bucket *)
+Theorem C03_pickaperm_wf : forall one s D m out,
+  D <> [] -> (forall r, In r D -> NoDup (elems r) /\ Forall (fun b => b <> []) r) -> pickaperm one s D = Ok (m, out) ->
+  out <> [] /\ (one = true -> length out = 1%nat) /\
+  forall r, In r out -> Permutation (elems r) (universe D) /\ Forall (fun b => b <> []) r.
+Proof. exact pickaperm_wf. Qed.
+Print Assumptions C03_pickaperm_wf.
 
 Theorem C03_unified_inputs_wf : forall U r,
   NoDup U -> NoDup (elems r) -> incl (elems r) U ->
